@@ -128,6 +128,12 @@ WEq(sr, want, have) == IF sr \in {"Rat", "MaxTimes"} THEN REq(want, have) ELSE w
 Inv(sr, a) == CASE sr \in {"Rat", "MaxTimes"} -> RInv(a)
                 [] sr = "Bool" -> a
 
+(* the same for every model domain: pairs of rationals are compared componentwise *)
+WEq2(sr, want, have) ==
+  CASE sr \in {"Rat", "MaxTimes"} -> REq(want, have)
+    [] sr = "Expect" -> REq(want[1], have[1]) /\ REq(want[2], have[2])
+    [] OTHER -> want = have
+
 (* the carrier sets used by model checking configurations *)
 Carrier(sr) ==
   CASE sr \in IntSR -> 0 .. Cap(sr)
